@@ -9,8 +9,8 @@
 (***************************************************************************)
 EXTENDS Diff, ReadPatch, Universe
 FieldOrder == [k |-> 0, v |-> 0]   \* must stay the first definition of a root module (JsonValue.tla)
-VARIABLES ops, remaining, out, failed, aux
-rvars == <<ops, remaining, out, failed, aux, doc, rest, status>>
+VARIABLES ops, remaining, out, failed, aux, grp, checked
+rvars == <<ops, remaining, out, failed, aux, grp, checked, doc, rest, status>>
 
 Docs == ScalArr(3, 2) \cup {Arr(t) : t \in TuplesUpTo({N1, Arr(<<N1>>), Arr(<<N1, N2>>), O1("k0", N1)}, 2)}
         \cup {O1("k0", Arr(t)) : t \in TuplesUpTo({N1, N2}, 2)}
@@ -24,19 +24,28 @@ Init ==
     /\ \E g \in Variations(GroupsOf(d), N9) :
          /\ ops = Flatten(g)
          /\ aux = [a |-> a, b |-> b, own |-> (g = GroupsOf(d))]
-    /\ remaining = ops /\ out = <<>> /\ failed = FALSE
+    /\ remaining = ops /\ out = <<>> /\ failed = FALSE /\ grp = <<>> /\ checked = FALSE
     /\ doc = Void /\ rest = <<>> /\ status = "idle"
 
 ReadOne ==
   /\ remaining # <<>> /\ ~failed
   /\ LET e == ReadElement(remaining) IN
-     IF e.ok THEN remaining' = e.rest /\ out' = Coalesce(out, e.hunk) /\ failed' = FALSE
-     ELSE failed' = TRUE /\ UNCHANGED <<remaining, out>>
-  /\ UNCHANGED <<ops, aux, doc, rest, status>>
-Next == ReadOne
+     IF e.ok THEN
+          LET used == SubSeq(remaining, 1, Len(remaining) - Len(e.rest))
+              merged == out # <<>> /\ Len(Coalesce(out, e.hunk)) = Len(out)
+          IN /\ remaining' = e.rest /\ out' = Coalesce(out, e.hunk) /\ failed' = FALSE
+             /\ grp' = IF merged THEN [grp EXCEPT ![Len(grp)] = grp[Len(grp)] \o used] ELSE Append(grp, used)
+     ELSE failed' = TRUE /\ UNCHANGED <<remaining, out, grp>>
+  /\ UNCHANGED <<ops, aux, checked, doc, rest, status>>
+(* the last step of ReadPatchString: every context test addresses a neighbour of its hunk's edit *)
+CheckContexts ==
+  /\ remaining = <<>> /\ ~failed /\ ~checked
+  /\ checked' = TRUE /\ failed' = ~(\A i \in DOMAIN out : ContextInPlace(grp[i], out[i]))
+  /\ UNCHANGED <<ops, remaining, out, aux, grp, doc, rest, status>>
+Next == ReadOne \/ CheckContexts
 Spec == Init /\ [][Next]_rvars
 
-Finished == remaining = <<>> \/ failed
+Finished == (remaining = <<>> /\ checked) \/ failed
 MachineIsFunction == Finished => (failed = ~ReadOps(ops).ok /\ (~failed => out = ReadOps(ops).diff))
 Targets == {aux.a, aux.b} \cup (IF IsArr(aux.a) /\ Len(aux.a.v) <= 2 THEN Perturb(aux.a) ELSE {})
 NeverMorePermissive ==
